@@ -254,6 +254,56 @@ def two_events(tp_kind: int, tp_line: int, e1_line: int, e2_line: int, e1_kind: 
     return ""
 
 
+def pending_then_match(dk: int, gap: int, same_line: bool) -> str:
+    """
+    A tracepoint that leaves deferred work behind (a line span, a method span, a line / method capture) and a plain
+    snapshot tracepoint on one of the NEXT lines of the same function: the event that completes the deferred work is still
+    an event at its own location - the second tracepoint acts exactly once, on its line.
+    PRE: 0 <= dk <= 3 and 1 <= gap <= 2
+    POST: _ == ""
+    """
+    world.begin_path()
+    from deep.api.tracepoint.trigger import build_trigger, LocationAction, LineLocation, FunctionLocation, Trigger, Location
+    dk, gap, same_line = world.realize(dk), world.realize(gap), world.realize(same_line)
+    w = _world()
+    lim = {"fire_count": "-1", "fire_period": "0"}
+    if dk == 0:
+        d = build_trigger("tpD", "f.py", 2, dict(lim, span="line", snapshot="no_collect"), [], [])
+    elif dk == 1:
+        d = build_trigger("tpD", "f.py", 2, dict(lim, span="method", method_name="f", snapshot="no_collect"), [], [])
+    else:
+        cfg = {"fire_count": -1, "fire_period": 0, "watches": [], "stage": "line_capture" if dk == 2 else "method_capture"}
+        act = LocationAction("tpD", None, cfg, LocationAction.ActionType.Snapshot)
+        loc = LineLocation("f.py", 2, Location.Position.CAPTURE) if dk == 2 else FunctionLocation("f.py", "f", Location.Position.CAPTURE)
+        d = Trigger(loc, [act])
+    b_line = 2 if same_line else 2 + gap
+    b = build_trigger("tpB", "f.py", b_line, dict(lim), [], [])
+    w.install([d, b])
+    frame = FakeFrame("/app/f.py", "f", 1, {"x": 1})
+    at = {}
+    for (ev, line, arg) in (("call", 1, None), ("line", 2, None), ("line", 3, None), ("line", 4, None), ("return", 4, "r")):
+        frame.f_lineno = line
+        before = len([s for s in w.push.snapshots if s.tracepoint.id == "tpB"])
+        w.event(frame, ev, arg)
+        n = len([s for s in w.push.snapshots if s.tracepoint.id == "tpB"]) - before
+        if n:
+            at[(ev, line)] = n
+    world.reached()
+    if at != {("line", b_line): 1}:
+        if not at:
+            return "C03:pending:tracepoint-on-a-later-line-did-not-act(event consumed by deferred work)"
+        return "C03:pending:tracepoint-acted-at-the-wrong-event"
+    if dk in (0, 1):
+        opens = [e for e in w.log if e[0] == "open"]
+        closes = [e for e in w.log if e[0] == "close"]
+        if len(opens) != 1 or len(closes) != 1:
+            return "C03:pending:deferred-span-not-completed-once"
+    else:
+        if len([s for s in w.push.snapshots if s.tracepoint.id == "tpD"]) != 1:
+            return "C03:pending:deferred-capture-not-delivered-once"
+    return ""
+
+
 def _mut_line_ignores_event():
     from deep.api.tracepoint.trigger import LineLocation
 
@@ -278,10 +328,36 @@ def _mut_merge_drops():
     Trigger.merge_actions = merge_actions
 
 
-MUTANTS = {"line_ignores_event": _mut_line_ignores_event, "func_ignores_file": _mut_func_ignores_file,
+def _mut_callback_event_spent():
+    """An event that completes deferred work is not matched against the tracepoints any more."""
+    from deep.processor.trigger_handler import TriggerHandler
+    orig = TriggerHandler._TriggerHandler__actions_for_location
+
+    def actions_for_location(self, event, file, line, function, frame):
+        if event in ("line", "return", "exception") and getattr(self, "_verif_had_callbacks", False):
+            self._verif_had_callbacks = False
+            return []
+        return orig(self, event, file, line, function, frame)
+    TriggerHandler._TriggerHandler__actions_for_location = actions_for_location
+    orig_pc = TriggerHandler._TriggerHandler__process_call_backs
+
+    def process_call_backs(self, *a, **k):
+        try:
+            pending = len(self._callbacks.value) > 0
+        except Exception:
+            pending = False
+        self._verif_had_callbacks = pending
+        return orig_pc(self, *a, **k)
+    TriggerHandler._TriggerHandler__process_call_backs = process_call_backs
+
+
+MUTANTS = {"callback_event_spent": _mut_callback_event_spent, "line_ignores_event": _mut_line_ignores_event, "func_ignores_file": _mut_func_ignores_file,
            "merge_drops": _mut_merge_drops}
 
 CONDITIONS = [
+    dict(fn="pending_then_match", cubes=["dk == %d" % k for k in range(4)], twins=["reach", "mutant:callback_event_spent@dk == 0"],
+         bounds="a deferring tracepoint (line span, method span, line capture, method capture) at line 2 / method f and a snapshot tracepoint on the same line or 1-2 lines later; "
+                "events call, line 2, line 3, line 4, return"),
     dict(fn="one_tp", cubes=["tp_kind == %d and ev_kind == %d and rel == %d" % (a, b, c) for a in range(2) for b in range(4) for c in range(4)],
          twins=["reach", "mutant:line_ignores_event@tp_kind == 0 and ev_kind == 2 and rel == 0",
                 "mutant:func_ignores_file@tp_kind == 1 and ev_kind == 1 and rel == 2"],
